@@ -133,7 +133,7 @@ int __wrap_getentropy(void *buf, size_t len)
 		uint8_t tmp[256];
 		rng_bytes(&n->ent, tmp, len > sizeof(tmp) ? sizeof(tmp) : len);
 		sim_yield(EV_ENT, (int64_t)len, -1);
-		errno = EIO;
+		if (n->efail_errno) errno = n->efail_errno;
 		return -1;
 	}
 	rng_bytes(&n->ent, buf, len);
